@@ -366,4 +366,185 @@ mutual
     | x :: r, fm, ind => by simp [afterLingoList, jsStmts, js_afterLingo x, jsStmts_afterLingoList r]
 end
 
+/-! ### script level -/
+
+theorem strLe_refl (a : Str) : strLe a a = true := by
+  induction a with
+  | nil => simp [strLe]
+  | cons x xs ih => simp [strLe, ih]
+
+theorem strLe_total (a b : Str) : (strLe a b || strLe b a) = true := by
+  induction a generalizing b with
+  | nil => simp [strLe]
+  | cons x xs ih =>
+    cases b with
+    | nil => simp [strLe]
+    | cons y ys =>
+      simp only [strLe]
+      by_cases h1 : x.toNat < y.toNat
+      · simp [h1]
+      · by_cases h2 : y.toNat < x.toNat
+        · simp [h1, h2]
+        · simp [h1, h2, ih ys]
+
+theorem strLe_trans (a b c : Str) : strLe a b = true → strLe b c = true → strLe a c = true := by
+  induction a generalizing b c with
+  | nil => simp [strLe]
+  | cons x xs ih =>
+    cases b with
+    | nil => simp [strLe]
+    | cons y ys =>
+      cases c with
+      | nil => simp [strLe]
+      | cons z zs =>
+        simp only [strLe]
+        intro h1 h2
+        by_cases hxy : x.toNat < y.toNat
+        · by_cases hyz : y.toNat < z.toNat
+          · have : x.toNat < z.toNat := by omega
+            simp [this]
+          · by_cases hzy : z.toNat < y.toNat
+            · simp [hyz, hzy] at h2
+            · have : x.toNat < z.toNat := by omega
+              simp [this]
+        · by_cases hyx : y.toNat < x.toNat
+          · simp [hxy, hyx] at h1
+          · simp only [hxy, hyx, if_false] at h1
+            by_cases hyz : y.toNat < z.toNat
+            · have : x.toNat < z.toNat := by omega
+              simp [this]
+            · by_cases hzy : z.toNat < y.toNat
+              · simp [hyz, hzy] at h2
+              · simp only [hyz, hzy, if_false] at h2
+                have e1 : ¬ x.toNat < z.toNat := by omega
+                have e2 : ¬ z.toNat < x.toNat := by omega
+                simp only [e1, e2, if_false]
+                exact ih ys zs h1 h2
+
+/-- sorting the global variables of a handler twice is sorting them once -/
+theorem sortedByName_idem (l : List Node) : sortedByName (sortedByName l) = sortedByName l := by
+  unfold sortedByName
+  apply List.mergeSort_of_pairwise
+  apply List.pairwise_mergeSort
+  · intro a b c; exact strLe_trans _ _ _
+  · intro a b; exact strLe_total _ _
+
+theorem clearParen_name (x : Node) : (clearParen x).name = x.name := by
+  cases x <;> simp [clearParen, Node.name]
+
+/-- what `endsWithExit` looks at in the last statement is unchanged by a generator walk -/
+def exitView : Node → R Bool
+  | .stmt _ code => (code.name).map fun n => n == Name.s (S "exit")
+  | _ => .error .type
+
+theorem endsWithExit_eq (l : List Node) : endsWithExit l = match l.getLast? with | none => .ok false | some x => exitView x := by
+  unfold endsWithExit
+  cases l.getLast? with
+  | none => rfl
+  | some x => cases x <;> rfl
+
+theorem exitView_afterLingo (x : Node) : exitView (afterLingo x) = exitView x := by
+  cases x <;> simp [afterLingo, exitView, clearParen_name, afterLingo_name]
+  rename_i n p ps up it wr
+  cases ps <;> simp [afterLingo, exitView]
+
+theorem endsWithExit_afterLingoList (l : List Node) : endsWithExit (afterLingoList l) = endsWithExit l := by
+  rw [endsWithExit_eq, endsWithExit_eq, afterLingoList_getLast]
+  cases l.getLast? with
+  | none => rfl
+  | some x => simp [exitView_afterLingo]
+
+theorem endsWithExit_append_last (a b : List Node) (h : b ≠ []) : endsWithExit (a ++ b) = endsWithExit b := by
+  rw [endsWithExit_eq, endsWithExit_eq, List.getLast?_append]
+  cases hb : b.getLast? with
+  | none => simp [List.getLast?_eq_none_iff] at hb; exact absurd hb h
+  | some x => simp
+
+theorem dropLast_append_drop (l : List Node) : l.dropLast ++ l.drop (l.length - 1) = l := by
+  rw [List.dropLast_eq_take, List.take_append_drop]
+
+theorem drop_last_length (l : List Node) (h : l ≠ []) : (l.drop (l.length - 1)).length = 1 := by
+  have : 0 < l.length := List.length_pos_iff.mpr h
+  simp [List.length_drop]; omega
+
+theorem drop_last_ne_nil (l : List Node) (h : l ≠ []) : l.drop (l.length - 1) ≠ [] := by
+  intro e; have := drop_last_length l h; rw [e] at this; simp at this
+
+theorem dropLast_of_length_one (b : List Node) (h : b.length = 1) : b.dropLast = [] := by
+  match b, h with
+  | [x], _ => rfl
+
+theorem dropLast_append_last (a l : List Node) (h : l ≠ []) :
+    (a ++ l.drop (l.length - 1)).dropLast = a := by
+  rw [List.dropLast_append_of_ne_nil (drop_last_ne_nil l h), dropLast_of_length_one _ (drop_last_length l h)]
+  simp
+
+/-- a handler body after a Lingo generation prints the same Lingo -/
+theorem body_lingo_afterLingo (stmts : List Node) (ind : Nat) :
+    (bodyStmts (afterLingoBody stmts)).bind (fun b => lingoStmts b ind) = (bodyStmts stmts).bind (fun b => lingoStmts b ind) := by
+  unfold afterLingoBody
+  cases he : endsWithExit stmts with
+  | error e => rfl
+  | ok e =>
+    cases e with
+    | false =>
+      simp only [bodyStmts, endsWithExit_afterLingoList, he]
+      simp [Bind.bind, Except.bind, pure, Except.pure, lingoStmts_afterLingoList]
+    | true =>
+      have hne : stmts ≠ [] := by
+        intro h; subst h; simp [endsWithExit] at he
+      have hl := drop_last_ne_nil stmts hne
+      have e1 : endsWithExit (afterLingoList stmts.dropLast ++ stmts.drop (stmts.length - 1)) = .ok true := by
+        rw [endsWithExit_append_last _ _ hl, ← he]
+        conv => rhs; rw [← dropLast_append_drop stmts]
+        rw [endsWithExit_append_last _ _ hl]
+      have e2 : (afterLingoList stmts.dropLast ++ stmts.drop (stmts.length - 1)).dropLast = afterLingoList stmts.dropLast :=
+        dropLast_append_last _ _ hne
+      simp only [bodyStmts, e1, he]
+      simp [Bind.bind, Except.bind, pure, Except.pure, e2, lingoStmts_afterLingoList]
+
+/-- … and the same JavaScript -/
+theorem body_js_afterLingo (stmts : List Node) (fm : Bool) (ind : Nat) :
+    (bodyStmts (afterLingoBody stmts)).bind (fun b => jsStmts fm b ind) = (bodyStmts stmts).bind (fun b => jsStmts fm b ind) := by
+  unfold afterLingoBody
+  cases he : endsWithExit stmts with
+  | error e => rfl
+  | ok e =>
+    cases e with
+    | false =>
+      simp only [bodyStmts, endsWithExit_afterLingoList, he]
+      simp [Bind.bind, Except.bind, pure, Except.pure, jsStmts_afterLingoList]
+    | true =>
+      have hne : stmts ≠ [] := by
+        intro h; subst h; simp [endsWithExit] at he
+      have hl := drop_last_ne_nil stmts hne
+      have e1 : endsWithExit (afterLingoList stmts.dropLast ++ stmts.drop (stmts.length - 1)) = .ok true := by
+        rw [endsWithExit_append_last _ _ hl, ← he]
+        conv => rhs; rw [← dropLast_append_drop stmts]
+        rw [endsWithExit_append_last _ _ hl]
+      have e2 : (afterLingoList stmts.dropLast ++ stmts.drop (stmts.length - 1)).dropLast = afterLingoList stmts.dropLast :=
+        dropLast_append_last _ _ hne
+      simp only [bodyStmts, e1, he]
+      simp [Bind.bind, Except.bind, pure, Except.pure, e2, jsStmts_afterLingoList]
+
+theorem afterJsBody_id (stmts : List Node) : afterJsBody stmts = stmts := by
+  unfold afterJsBody
+  cases he : endsWithExit stmts with
+  | error e => rfl
+  | ok e =>
+    cases e with
+    | false => simp [afterJsList_id]
+    | true =>
+      have hne : stmts ≠ [] := by
+        intro h; subst h; simp [endsWithExit] at he
+      simp [afterJsList_id, dropLast_append_drop stmts]
+
+theorem afterJsScript_id (s : Script) : afterJsScript s = s := by
+  unfold afterJsScript
+  have : (s.functions.map fun f => { f with stmts := afterJsBody f.stmts }) = s.functions := by
+    induction s.functions with
+    | nil => rfl
+    | cons f fs ih => simp [afterJsBody_id, ih]
+  rw [this]
+
 end Drx.Lscr
